@@ -19,7 +19,8 @@ EXPLANATION = (
     "the record number and the handle's record length only; (R10) GET accepts a short record while PUT does not pad; (R11) the text readers decode the collected bytes as a whole - no character cast from a single byte is pushed into the string they return (PRINT # writes UTF-8 bytes)."
     " (R15) where the checker of a built-in statement walks an argument list of any length, its run() walks it too (CLOSE #1, #2 closes both)."
     " (R16) PUT, GET, CVD and MKD$ convert between strings and bytes through the VM's byte-per-character codec only and never touch the UTF-8 bytes of a string."
-    " (R17) the record number PUT / GET hand to put_record / get_record is made by a conversion whose every numeric cast is the LONG-range cast (QBNumberCast<i64>).")
+    " (R17) the record number PUT / GET hand to put_record / get_record is made by a conversion whose every numeric cast is the LONG-range cast (QBNumberCast<i64>)."
+    " (R18) every path of GET / PUT that ends in success passes through get_record / put_record, where the file mode is checked: no shortcut returns Ok before it.")
 NOT_DECIDED = ["read-back equality of file contents, exactness of EOF, record contents (value-level)"]
 
 RE = "rusty_basic::interpreter::error::RuntimeError"
@@ -881,6 +882,38 @@ def r17_record_number_has_the_long_range(ctx, rule="C18.R17"):
     ctx.require(rule, 2)
 
 
+def r18_record_access_checks_the_mode(ctx, rule="C18.R18"):
+    """GET and PUT are for RANDOM files: the mode is checked where the record is read / written (FileInfo::get_record /
+    put_record reach the mode test).  Every path of the built-in's run() that ends in success passes through that call -
+    a shortcut that returns Ok before it (nothing to decode, nothing to write) lets GET / PUT on a handle open FOR INPUT,
+    OUTPUT or APPEND go by without Bad file mode."""
+    prog = ctx.prog
+    for module, callee, what in (("get", "get_record", "GET"), ("put", "put_record", "PUT")):
+        fns = [f for f in prog.fns.values() if f.crate == "rusty_basic" and f.name == "run"
+               and ("interpreter::built_ins::%s::" % module) in f.path]
+        if len(fns) != 1:
+            raise CheckError("%s: run() of built-in %s not found" % (rule, module))
+        f = fns[0]
+        body = f.body
+        calls = {b for b, t in body.calls() if mir.callee_path(t).split("::")[-1] == callee}
+        oks = [b for b, blk in enumerate(body.blocks) if not blk.get("c") for st in blk["s"]
+               if st["k"] == "assign" and st["p"] == [0, []] and st["r"]["k"] == "agg"
+               and st["r"].get("adt") == "core::result::Result" and st["r"].get("variant") == "Ok"]
+        if not calls:
+            ctx.violation(rule, "%s:%s" % (rule, what), f.loc, "%s no longer calls %s: the record is not read / written where the "
+                          "file mode is checked" % (what, callee))
+            continue
+        if not oks:
+            raise CheckError("%s: %s has no successful return" % (rule, what))
+        bad = [b for b in oks if not body.every_path_passes(0, {b}, calls)]
+        lines = sorted({body.blocks[b]["t"].get("ln") or (body.blocks[b]["s"][-1].get("ln") if body.blocks[b]["s"] else None) for b in bad})
+        ctx.decide(not bad, rule, "%s:%s" % (rule, what), f.loc, "every successful path passes through %s" % callee,
+                   "%s can return Ok (line %s) without having called %s: the mode of the file is not checked on that path, "
+                   "so %s on a handle that is not open FOR RANDOM succeeds silently instead of raising Bad file mode"
+                   % (what, lines, callee, what))
+    ctx.require(rule, 2)
+
+
 def run(ctx):
     common.install(ctx)
     r1_open_guard(ctx)
@@ -901,3 +934,4 @@ def run(ctx):
     r15_variadic_builtins_handle_every_argument(ctx)
     r16_records_hold_one_byte_per_character(ctx)
     r17_record_number_has_the_long_range(ctx)
+    r18_record_access_checks_the_mode(ctx)
